@@ -38,6 +38,9 @@ def expand_structural(n, mf, has_fork, fork_k, has_foreign):
     for rot in range(n):
         m.append({"kind": "rotate", "by": rot})
     m.append({"kind": "reverse"})
+    m.append({"kind": "merged_alone"})
+    for j in range(0, n - 1):
+        m.append({"kind": "tail_replaced_by_merged", "j": j})
     if has_fork:
         m.append({"kind": "swap_fork"})
         m.append({"kind": "add_fork"})
@@ -97,6 +100,11 @@ class FilesetEngine:
             if c < ncont - 1:
                 ops.append({"op": "create_patch", "rec": 0})
         ops.append({"op": "close", "rec": 0})
+        if g.random() < (0.12 if tier == "quick" else 0.2):
+            # one container larger than 1 MiB (hash chunking, tail bytes)
+            pos = g.randrange(1, len(ops))
+            ops.insert(pos, {"op": "set_ds", "rec": 0, "base": "/", "path": "big_blob", "val": ["z", g.choice([1048576 + 5000, 1300000, 2 * 1048576 + 77]), g.randrange(1000)]})
+            sh.apply(ops[pos])
         fork = None
         if ncont >= 2 and g.random() < 0.6:
             k = g.randint(1, ncont - 1)
@@ -181,6 +189,22 @@ class FilesetEngine:
         if not os.path.exists(os.path.join(d, ff)):
             return None
         return {"k": k, "dir": d, "file": ff, "dump": dump}
+
+    def build_merged(self, scratch, info, cls):
+        """merge_files of the complete record -> single container carrying the newest identity."""
+        from pathlib import Path
+
+        d = os.path.join(scratch, "merged")
+        os.makedirs(d)
+        env.UUIDS.reseed("merged")
+        rec = cls([Path(os.path.join(info["dir"], f)) for f in info["files"]], "r")
+        try:
+            out = rec.merge_files(Path(os.path.join(d, "foo-m")))
+        except Exception:
+            return None
+        finally:
+            rec.close()
+        return {"dir": d, "file": os.path.basename(str(out))}
 
     def build_foreign(self, case, scratch):
         c2 = dict(case)
@@ -296,6 +320,28 @@ class FilesetEngine:
                     os.unlink(os.path.join(d, f))
                 order.append(name)
                 exp = ("accept", fork["dump"])
+        elif k in ("merged_alone", "tail_replaced_by_merged"):
+            mg = info.get("merged")
+            if not mg:
+                return None
+            name = "merged-" + mg["file"]
+            cp(mg["file"], name, mg["dir"])
+            if mf:
+                cpm(mg["file"], name, mg["dir"])
+            if k == "merged_alone":
+                for f in files:
+                    os.unlink(os.path.join(d, f))
+                order = [name]
+                exp = ("accept", last_dump)
+            else:
+                j = m["j"] % max(1, n - 1)
+                if n < 2:
+                    return None
+                for f in files[j + 1 :]:
+                    order.remove(f)
+                    os.unlink(os.path.join(d, f))
+                order.append(name)
+                exp = ("reject",)
         elif k in ("drop_manifest", "manifest_flip", "manifest_append", "manifest_edit", "manifest_older"):
             if not mf:
                 return None
@@ -404,6 +450,7 @@ class FilesetEngine:
         fork = self.build_fork(case, scratch, info, cls)
         foreign = self.build_foreign(case, scratch) if case["cfg"].get("foreign") else None
         n = len(info["files"])
+        info["merged"] = self.build_merged(scratch, info, cls)
         muts = []
         if case["cfg"].get("structural") == "all":
             muts += [{"kind": "none"}] + expand_structural(n, info["mf"], fork is not None, fork and fork["k"], foreign is not None)
